@@ -3,19 +3,16 @@
    src/bit_arr.rs (Bits wrapper), src/support/{num_traits,num_integer,subtle,zeroize}.rs.
 
    A facade that only forwards is *defined as* the inherent model function of the other
-   topics (Model/Add.v, Shift.v, Bits.v, Conv.v, Bytes.v) applied to the arguments in the
-   order the source passes them.  Inherent methods that are not modelled in /verif yet
-   (pow, gcd, lcm, from_str_radix; and, as the task was set before their models landed, the
-   forwarders to mul, div, rem, inv_ring) enter as an *observed* result
-   `obs : side` of the inherent call on the same operands; a forwarder returns it unchanged.
-   The subtle impls, swap_bytes, NumCast, MulAdd, is_multiple_of, inc/dec are real bodies.
+   topics (Model/Add.v, Shift.v, Bits.v, Conv.v, Bytes.v, Mul.v, UDiv.v, Pow.v, Gcd.v, Str.v)
+   applied to the arguments in the order the source passes them.  The subtle impls, swap_bytes,
+   NumCast, MulAdd, is_multiple_of, inc/dec are real bodies.
 
    Third-party primitives modelled by their documented meaning: subtle's
    u64::ct_gt (bit-smearing comparison) = `>` on words; Choice = bool with & | !.
    u64::ct_eq and u64::conditional_select are modelled as written in subtle 2.6.1.
    Definitions only. *)
 From RV.Model Require Import Base Word.
-From RV.Model Require Add Shift Bits Conv Bytes Mul UDiv.
+From RV.Model Require Add Shift Bits Conv Bytes Mul UDiv Pow Gcd BaseConv Str.
 
 (* ---------- one side of a comparison: what a call printed, or that it panicked ---------- *)
 Definition side := outcome (list tok).
@@ -34,14 +31,6 @@ Definition sPair (p : list Z * bool) : side := Val [TL (fst p); TB (snd p)].
 (* `x as usize` / `x as u64` of any primitive integer (64-bit target): sign-extend, wrap *)
 Definition as_usize (n : Z) : Z := modp2 n 64.
 
-(* Option::unwrap / Result::unwrap on a printed side: None panics, Some(x) gives x *)
-Definition unwrap_side (s : side) : side :=
-  match s with
-  | Val [TNone] => Panic
-  | Val (TSome :: r) => Val r
-  | s => s
-  end.
-
 (* ---------- src/macros.rs impl_bin_op!($trait, $fn, $trait_assign, $fn_assign, $fdel) ----------
    shape 0: Uint op Uint   -> self.$fdel(rhs)        1: Uint op &Uint  -> self.$fdel( *rhs)
    shape 2: &Uint op Uint  -> self.$fdel(rhs)        3: &Uint op &Uint -> self.$fdel( *rhs)
@@ -49,11 +38,12 @@ Definition unwrap_side (s : side) : side :=
    every shape passes (self, rhs) in this order *)
 Definition bin_op {A} (fdel : list Z -> list Z -> A) (shape : Z) (self rhs : list Z) : A :=
   fdel self rhs.
-(* the same with an unmodelled $fdel: the observed result of self.$fdel(rhs) *)
-Definition forward (obs : side) : side := obs.
 
 Definition op_add bits shape a b := bin_op (Add.wrapping_add bits) shape a b.
 Definition op_sub bits shape a b := bin_op (Add.wrapping_sub bits) shape a b.
+Definition op_mul bits shape a b := bin_op (Mul.wrapping_mul bits) shape a b.
+Definition op_div (shape : Z) a b := bin_op UDiv.wrapping_div shape a b.
+Definition op_rem (shape : Z) a b := bin_op UDiv.wrapping_rem shape a b.
 (* Neg for Uint / &Uint: self.wrapping_neg() *)
 Definition op_neg bits (shape : Z) a := Add.wrapping_neg bits a.
 (* Not for Uint: Self::not(self); for &Uint: ( *self).not() *)
@@ -74,6 +64,8 @@ Definition op_shr_uint bits (shape : Z) a k := Shift.shr_uint bits a k.
 
 (* Sum<Self> / Sum<&Self>: iter.fold(Self::ZERO, Self::wrapping_add) *)
 Definition it_sum bits (shape : Z) xs := Add.usum bits xs.
+(* Product<Self> / Product<&Self>: if BITS == 0 { return ZERO }; iter.fold(ONE, wrapping_mul) *)
+Definition it_product bits (shape : Z) xs := Mul.product bits xs.
 
 (* ---------- src/bit_arr.rs: Bits(Uint) ---------- *)
 (* forward!: Uint::$fn(self.0, args).into() / .map(Bits::from) / (value.into(), flag):
@@ -102,6 +94,9 @@ Definition bw_try_from_le_slice bits bs := wrap_bits (Bytes.try_from_le_slice bi
 Definition bw_from_be_bytes bits bs := wrap_bits (Bytes.from_be_bytes bits bs).
 Definition bw_from_le_bytes bits bs := wrap_bits (Bytes.from_le_bytes bits bs).
 Definition bw_from_limbs bits l := wrap_bits (Conv.from_limbs bits l).
+(* forward!: Uint::from_str_radix(src, radix).map(Bits::from); FromStr: src.parse().map(Self) *)
+Definition bw_from_str_radix bits cs radix := wrap_bits (Str.from_str_radix bits cs radix).
+Definition bw_from_str bits cs := wrap_bits (Str.from_str bits cs).
 (* into_inner, as_uint, as_uint_mut, From<Bits> for Uint, as_limbs, as_limbs_mut, Clone *)
 Definition bw_ident (k : Z) (a : list Z) := wrap_bits a.
 (* Index<usize>: if self.0.bit(index) { &true } else { &false } *)
@@ -143,6 +138,21 @@ Definition nt_to_be_bytes bits a := Bytes.to_be_bytes_vec bits a.
 Definition nt_checked_add bits a b := Add.checked_add bits a b.
 Definition nt_checked_sub bits a b := Add.checked_sub bits a b.
 Definition nt_checked_neg bits a := Add.checked_neg bits a.
+Definition nt_checked_mul bits a b := Mul.checked_mul bits a b.
+Definition nt_checked_div bits a b := UDiv.checked_div bits a b.
+Definition nt_checked_rem bits a b := UDiv.checked_rem bits a b.
+(* CheckedEuclid: <Self>::checked_div / checked_rem; Euclid: <Self>::wrapping_div / wrapping_rem *)
+Definition nt_checked_div_euclid bits a b := UDiv.checked_div bits a b.
+Definition nt_checked_rem_euclid bits a b := UDiv.checked_rem bits a b.
+Definition nt_div_euclid (a b : list Z) := UDiv.wrapping_div a b.
+Definition nt_rem_euclid (a b : list Z) := UDiv.wrapping_rem a b.
+Definition nt_inv bits a := Mul.inv_ring bits a.                       (* <Self>::inv_ring(self) *)
+Definition nt_saturating_mul bits a b := Mul.saturating_mul bits a b.
+Definition nt_wrapping_mul bits a b := Mul.wrapping_mul bits a b.
+Definition nt_overflowing_mul bits a b := Mul.overflowing_mul bits a b.
+(* Num::from_str_radix(str, radix: u32): <Self>::from_str_radix(str, radix as u64) *)
+Definition nt_from_str_radix bits cs (radix : Z) := Str.from_str_radix bits cs (as_usize radix).
+Definition nt_pow bits a e := Pow.pow bits a e.                        (* Pow<Self>: <Self>::pow(self, rhs) *)
 Definition nt_checked_shl bits a (n : Z) := Shift.checked_shl bits a (as_usize n).   (* other as usize *)
 Definition nt_checked_shr bits a (n : Z) := Shift.checked_shr bits a (as_usize n).
 (* Saturating (by value) and SaturatingAdd/Sub (by reference): <Self>::saturating_add(self, v) *)
@@ -200,11 +210,11 @@ Definition nt_swap_bytes bits a : outcome (list Z) :=
 Definition nt_to_be bits a := nt_swap_bytes bits a.
 Definition nt_to_le (bits : Z) (a : list Z) : outcome (list Z) := Val a.
 Definition nt_reverse_bits bits a := Bits.reverse_bits bits a.
-(* PrimInt::pow(self, exp: u32): self.pow(Self::from(exp)) — Uint::from panics when exp does not
-   fit BITS; `powres` = the observed result of the inherent pow *)
+(* PrimInt::pow(self, exp: u32): self.pow(Self::from(exp)) — the inherent pow; Uint::from panics
+   when exp does not fit BITS *)
 Definition prim_u32 : Conv.prim := {| Conv.pw := 32; Conv.psigned := false |}.
-Definition nt_pow_u32 bits (exp : Z) (powres : side) : side :=
-  do _ <- Conv.from_of (Conv.try_from_prim bits prim_u32 exp); forward powres.
+Definition nt_pow_u32 bits a (exp : Z) : outcome (list Z) :=
+  do e <- Conv.from_of (Conv.try_from_prim bits prim_u32 exp); Pow.pow bits a e.
 
 (* ---------- src/support/num_integer.rs ---------- *)
 (* is_multiple_of: if other.is_zero() { return self.is_zero(); } *self % *other == Self::ZERO
@@ -212,6 +222,17 @@ Definition nt_pow_u32 bits (exp : Z) (powres : side) : side :=
 Definition ni_is_multiple_of bits (self other : list Z) : outcome bool :=
   if is_zero bits other then Val (is_zero bits self)
   else do r <- UDiv.wrapping_rem self other; Val (limbs_eq r (uZERO bits)).
+Definition ni_div_floor (a b : list Z) := UDiv.wrapping_div a b.       (* Self::wrapping_div( *self, *other) *)
+Definition ni_mod_floor (a b : list Z) := UDiv.wrapping_rem a b.
+Definition ni_gcd bits a b := Gcd.gcd bits a b.
+Definition ni_lcm bits a b := unwrap_opt (Gcd.lcm bits a b).           (* <Self>::lcm(..).unwrap() *)
+Definition ni_div_rem (a b : list Z) := UDiv.div_rem a b.
+Definition ni_div_mod_floor (a b : list Z) := UDiv.div_rem a b.
+Definition ni_div_ceil bits a b := UDiv.div_ceil bits a b.
+(* let (gcd, x, y, _sign) = <Self>::gcd_extended( *self, *other); ExtendedGcd { gcd, x, y } *)
+Definition ni_extended_gcd bits a b : outcome (list Z * list Z * list Z) :=
+  do r <- Gcd.gcd_extended bits a b;
+  let '(g, x, y, _sign) := r in Val (g, x, y).
 Definition ni_is_even bits a : outcome bool := do b <- Bits.bit bits a 0; Val (negb b).
 Definition ni_is_odd bits a : outcome bool := Bits.bit bits a 0.
 (* inc: *self += Self::ONE; dec: *self -= Self::ONE *)
